@@ -60,6 +60,13 @@ class BuildError(Exception):
 def build_repo(targets=("SimTKcommon", "SimTKmath", "SimTKsimbody")):
     """Incremental hooks-on build of /repo's *current working tree*. Returns seconds spent."""
     t0 = time.time()
+    # fast path: when the build is already up to date for the current working tree (ninja dry run says so), a shared lock
+    # is enough, so one long-running check (which holds the lock shared while its harness runs) does not block the others
+    if os.path.exists(os.path.join(BUILD, "build.ninja")):
+        with Lock("build", shared=True):
+            rc, o, e = sh(["ninja", "-C", BUILD, "-n", *targets])
+            if rc == 0 and "no work to do" in o:
+                return time.time() - t0
     with Lock("build"):
         if not os.path.exists(os.path.join(BUILD, "build.ninja")):
             os.makedirs(BUILD, exist_ok=True)
